@@ -424,8 +424,30 @@ def r09_9(chk):
     chk.floor("R09.9", 1, "one traversal")
 
 
+def _inline_flags(fn, test):
+    """`test` with every local name that is bound exactly once in `fn` to a comparison / boolean expression replaced by
+    that expression (one level): `done = (n + 1) % k == 0; if done:` reads as `if (n + 1) % k == 0:`"""
+    import copy
+
+    binds = {}
+    for st in walk_no_nested(fn):
+        if isinstance(st, ast.Assign) and len(st.targets) == 1 and isinstance(st.targets[0], ast.Name):
+            binds.setdefault(st.targets[0].id, []).append(st.value)
+    flags = {n_: v[0] for n_, v in binds.items() if len(v) == 1 and isinstance(v[0], (ast.Compare, ast.BoolOp, ast.UnaryOp))}
+    if not flags:
+        return test
+
+    class _T(ast.NodeTransformer):
+        def visit_Name(self, node):
+            if isinstance(node.ctx, ast.Load) and node.id in flags:
+                return copy.deepcopy(flags[node.id])
+            return node
+
+    return _T().visit(copy.deepcopy(test))
+
+
 def _enclosing_tests(fn, target):
-    """normalised tests of the if/elif branches (taken side) that enclose `target`"""
+    """normalised tests of the if/elif branches (taken side) that enclose `target`; local boolean flags are inlined"""
     out = []
 
     def rec(stmts, acc):
@@ -434,9 +456,10 @@ def _enclosing_tests(fn, target):
                 out.extend(acc)
                 return True
             if isinstance(st, ast.If):
-                if rec(st.body, acc + [norm(st.test)]):
+                tt = norm(_inline_flags(fn, st.test))
+                if rec(st.body, acc + [tt]):
                     return True
-                if rec(st.orelse, acc + [f"not ({norm(st.test)})"]):
+                if rec(st.orelse, acc + [f"not ({tt})"]):
                     return True
             elif isinstance(st, (ast.For, ast.While)):
                 if rec(st.body, acc) or rec(st.orelse, acc):
